@@ -120,6 +120,15 @@ func (e *pvEnv) eph(n int) []byte {
 	return e.esk[n]
 }
 
+// ephPub: the public key of ephemeral key n; n = 7 is a point of small order (nobody holds a private key for it, the shared
+// secret with any key is all zero) with the correct length.
+func (e *pvEnv) ephPub(n int) []byte {
+	if n == 7 {
+		return []byte{0xe0, 0xeb, 0x7a, 0x7c, 0x3b, 0x41, 0xb8, 0xae, 0x16, 0x56, 0xe3, 0xfa, 0xf1, 0x9f, 0xc4, 0x6a, 0xda, 0x09, 0x8d, 0xeb, 0x9c, 0x32, 0xb1, 0xfd, 0x86, 0x62, 0x05, 0x16, 0x5f, 0x49, 0xb8, 0x00}
+	}
+	return refX25519Pub(e.eph(n))
+}
+
 func (e *pvEnv) ident(n int) *refIdentity {
 	if e.ids[n] == nil {
 		e.ids[n] = newRefIdentity(e.r, fmt.Sprintf("key-%d", n))
@@ -135,6 +144,12 @@ func (e *pvEnv) name(n int) string {
 	if n == 0 {
 		s = e.f.name // the accessory's own id: an entity that is always stored
 	}
+	switch n {
+	case 9: // the storage key of the pairing named ctrl-2, used as a NAME (another spelling of a stored pairing's file)
+		s = hx([]byte("ctrl-2"))
+	case 8: // … and a path to it
+		s = "./" + hx([]byte("ctrl-2"))
+	}
 	e.names[n] = s
 	return s
 }
@@ -143,7 +158,7 @@ func (e *pvEnv) concretise(conn int, m pvMsg) []byte {
 	switch m.Kind {
 	case "v1":
 		if m.Good {
-			return tlvMsg(tlvOp{tState, b1(1)}, tlvOp{tPubKey, refX25519Pub(e.eph(m.E))})
+			return tlvMsg(tlvOp{tState, b1(1)}, tlvOp{tPubKey, e.ephPub(m.E)})
 		}
 		l := []int{0, 1, 31, 33, 64}[m.N%5]
 		if l == 0 {
@@ -419,6 +434,13 @@ func pvCorpus() [][]pvStep {
 		// rejected start, then a finish sealed under the all-zero key
 		{{0, pvMsg{Kind: "v1", Good: false, N: 2}}, {0, g(func(m *pvMsg) { m.KKind = "zero"; m.CE = -1; m.SigKind = "garbage" })}},
 		{{0, pvMsg{Kind: "v1", Good: false, N: 0}}, {0, g(func(m *pvMsg) { m.KKind = "zero"; m.CE = -1 })}},
+		// an exchange that failed, then a start whose key is a point of small order, then the finish made for the FIRST exchange
+		{{0, start}, {0, g(func(m *pvMsg) { m.SigKind = "garbage" })}, {0, pvMsg{Kind: "v1", Good: true, E: 7}}, {0, genuineV3(0, 1, 0, 10)}},
+		{{0, start}, {0, pvMsg{Kind: "v3", Short: 7, Entry: "none"}}, {0, pvMsg{Kind: "v1", Good: true, E: 7}}, {0, genuineV3(0, 1, 2, 12)}},
+		// ctrl-2 is paired (key 12) and verifies; then a finish that claims the NAME "<storage key of ctrl-2>" (or a path to
+		// it), signed with that same key: no pairing is stored under that name
+		{{0, start}, {0, genuineV3(0, 1, 2, 12)}, {1, pvMsg{Kind: "v1", Good: true, E: 2}}, {1, func() pvMsg { m := genuineV3(1, 2, 9, 12); m.Entry = "none"; return m }()}},
+		{{0, start}, {0, genuineV3(0, 1, 2, 12)}, {1, pvMsg{Kind: "v1", Good: true, E: 2}}, {1, func() pvMsg { m := genuineV3(1, 2, 8, 12); m.Entry = "none"; return m }()}},
 		// honest
 		{{0, start}, {0, genuineV3(0, 1, 0, 10)}},
 		{{0, start}, {0, pvMsg{Kind: "badstate", N: 9}}, {0, genuineV3(0, 1, 2, 12)}},
@@ -434,6 +456,7 @@ func checkC03(c *Ctx) {
 	c03Handover(c)
 	c03Revocation(c)
 	c03Rekey(c)
+	c03VerifyInterleaved(c)
 	c03PlainFraming(c)
 	c.SetRule("histories of 1-10 symbolic pair-verify messages on 1-2 interleaved connections with a pairing store that changes between messages " +
 		"(alphabet: start with good / wrong-length key; finish genuine, unknown name, entity without key, stored key ≠ signer, garbage/empty signature, " +
@@ -449,7 +472,13 @@ func checkC03(c *Ctx) {
 	}
 	var cases []hcase
 	for i, h := range pvCorpus() {
-		cases = append(cases, hcase{fmt.Sprintf("corpus#%d", i), 1, h, i})
+		nc := 1
+		for _, st := range h {
+			if st.Conn+1 > nc {
+				nc = st.Conn + 1
+			}
+		}
+		cases = append(cases, hcase{fmt.Sprintf("corpus#%d", i), nc, h, i})
 	}
 	for i := 0; i < c.Pick(800, 80000); i++ {
 		r := c.CaseRng("hist", i)
@@ -1281,5 +1310,91 @@ func c03Rekey(c *Ctx) {
 		}
 		raw.Close()
 		c.Count(id, true, "stream:rekey")
+	}
+}
+
+// ---- another connection's pair-verify request in the middle of a genuine finish ------------------------------------------
+
+// hookDB runs a callback inside EntityWithName (the pairing lookup of a pair-verify finish).
+type hookDB struct {
+	db.Database
+	hook func()
+}
+
+func (h *hookDB) EntityWithName(name string) (db.Entity, error) {
+	if f := h.hook; f != nil {
+		h.hook = nil
+		f()
+	}
+	return h.Database.EntityWithName(name)
+}
+
+// c03VerifyInterleaved: while the accessory processes the genuine finish of paired controller P (it is looking P's pairing
+// up), a pair-verify request of ANOTHER connection S is served completely. P — and only P — is verified afterwards: S stays
+// in plaintext and is refused protected requests, whatever its request was.
+func c03VerifyInterleaved(c *Ctx) {
+	kinds := []string{"start", "start-after-start", "garbage-finish", "empty"}
+	for i := 0; i < c.Pick(8, 200); i++ {
+		id := c.CaseID("verify-interleaved", i)
+		if c.Skip(id) {
+			continue
+		}
+		r := c.CaseRng("verify-interleaved", i)
+		kind := kinds[i%len(kinds)]
+		hd := &hookDB{}
+		sw := accessory.NewSwitch(accessory.Info{Name: "V"})
+		f, err := newAccFixtureDB(c, "00102003", func(d db.Database) db.Database { hd.Database = d; return hd }, sw.Accessory)
+		if err != nil {
+			c.Violate("fixture cannot be built", id, nil, "fixture", err.Error())
+			return
+		}
+		p := newRefIdentity(r, fmt.Sprintf("ctrl-p-%d", i))
+		f.db.SaveEntity(db.NewEntity(p.Name, p.Pub, nil))
+		addrP, addrS := "10.0.5.1:6001", "10.0.5.2:6002"
+		sEph := randBytes(r, 32)
+		post := func(addr string, body []byte) (int, []byte) {
+			st, resp, _, _ := f.Do(addr, "POST", "/pair-verify", "application/pairing+tlv8", body)
+			return st, resp
+		}
+		if kind == "start-after-start" {
+			post(addrS, tlvMsg(tlvOp{tState, b1(1)}, tlvOp{tPubKey, refX25519Pub(sEph)}))
+		}
+		nested := func() {
+			switch kind {
+			case "start", "start-after-start":
+				post(addrS, tlvMsg(tlvOp{tState, b1(1)}, tlvOp{tPubKey, refX25519Pub(sEph)}))
+			case "garbage-finish":
+				post(addrS, tlvMsg(tlvOp{tState, b1(3)}, tlvOp{tEnc, randBytes(r, 80)}))
+			default:
+				post(addrS, nil)
+			}
+		}
+		// P's exchange; the other connection's request is served inside the lookup of P's finish
+		n := 0
+		vr := refPairVerify(r, func(path string, body []byte) (int, []byte, error) {
+			n++
+			if n == 2 {
+				hd.hook = nested
+			}
+			st, resp := post(addrP, body)
+			return st, resp, nil
+		}, p, f.device.PublicKey())
+		hd.hook = nil
+		f.Conn(addrS)
+		responseWritten(f.ctx, f.raw[addrP])
+		responseWritten(f.ctx, f.raw[addrS])
+		in := map[string]interface{}{"request_of_the_other_connection": kind}
+		if f.Session(addrS).Encrypter() != nil || f.Session(addrS).Decrypter() != nil {
+			c.Violate("pair-verify verified a connection (or answered success) without a valid signature by the stored long-term key over this exchange", id, in,
+				"the other connection stays in plaintext", "a secure session was installed on the connection that sent no finish")
+		}
+		if st, body, _, pm := f.Do(addrS, "GET", "/accessories", "", nil); classify(st, body, pm) != "refused" {
+			c.Violate("unverified connection was not refused a protected operation", id, in, "HTTP 470", fmt.Sprint(st, " ", trunc(string(body), 80), pm))
+		}
+		if vr.Shared == nil || f.Session(addrP).Encrypter() == nil {
+			c.Violate("paired reference controller cannot verify (another connection's request was served meanwhile)", id, in, "verified", vr.ErrAt)
+		}
+		c.Count(id, true, "stream:verify-interleaved", "verify-interleaved:"+kind)
+		f.Close()
 	}
 }
